@@ -76,11 +76,30 @@ func vfC19_Probe() {
 	// reference state: retained history per client
 	var okHist [4][64]bool
 	var latHist [4][32]time.Duration
+	// long = 0: every outcome of every round is symbolic (few rounds).
+	// long = 1 or 2: histories longer than what the policies retain (32 / 64 rounds): client i
+	// succeeds exactly in the rounds before (1) / from (2) a symbolic switch round k_i, with a
+	// fixed latency per client.
+	long := vfCase("long")
+	var kSwitch [4]int
+	var lSec, lNsec [4]int64
+	if long != 0 {
+		for i := 0; i < n; i++ {
+			kSwitch[i] = vfInt("switchRound")
+			vfAssume(kSwitch[i] >= 0 && kSwitch[i] <= rounds)
+			lSec[i], lNsec[i] = int64(1+(i+long)%3), 0 // fixed, distinct latencies: only the switch rounds are symbolic
+		}
+	}
 	for r := 0; r < rounds; r++ {
 		for i := 0; i < n; i++ {
-			curOK[i] = vfBool("ok")
-			curSec[i] = vfI64("latSec")
-			curNsec[i] = vfI64("latNsec")
+			if long != 0 {
+				curOK[i] = (r < kSwitch[i]) == (long == 1)
+				curSec[i], curNsec[i] = lSec[i], lNsec[i]
+			} else {
+				curOK[i] = vfBool("ok")
+				curSec[i] = vfI64("latSec")
+				curNsec[i] = vfI64("latNsec")
+			}
 			vfAssume(curSec[i] >= 0 && curSec[i] <= 9 && curNsec[i] >= 0 && curNsec[i] < 1000000000)
 			okHist[i][r%64] = curOK[i]
 			lat := time.Duration(curSec[i])*time.Second + time.Duration(curNsec[i])
